@@ -251,6 +251,32 @@ fn assign_defects(thorough: bool, out: &mut Vec<Defect>) {
                 out.push(Defect { class: format!("assign-duplicate/{}", tag), text: dup(true).text(), twin: dup(false).text(), sigil, must_name: vec!["X".into()] });
             }
         }
+        // a cycle one of whose edges is carried by a value that ALSO rebinds the sibling's name in an inner scope
+        // (let binding / lambda parameter): the free use still makes it a dependency
+        for kind in [AssignKind::Plain, AssignKind::Inline, AssignKind::Lambda] {
+            for inner in ["let", "lambda-parameter"] {
+                let shadowing = |free_use: bool| -> E {
+                    let inner_e = if inner == "let" {
+                        E::Let(LetKind::Let, vec![("Y".into(), E::int(1))], Box::new(E::prim("c", vec![E::v("Y"), E::int(2)])))
+                    } else {
+                        E::Apply(Box::new(E::Lambda(vec![], Pat::list(vec![Pat::n("Y")]), Box::new(E::prim("c", vec![E::v("Y"), E::int(2)])))), Box::new(E::List(vec![E::int(1)])))
+                    };
+                    let mut items = vec![E::v("A")];
+                    if free_use {
+                        items.push(E::v("Y"));
+                    }
+                    items.push(inner_e);
+                    E::List(items)
+                };
+                let mk = |cyclic: bool| Prog {
+                    sigil: Some(sigil),
+                    params: Pat::list(vec![Pat::n("A")]),
+                    helpers: vec![],
+                    body: E::Assign(kind.clone(), vec![(Pat::n("X"), shadowing(true)), (Pat::n("Y"), if cyclic { E::List(vec![E::v("X")]) } else { E::List(vec![E::v("A")]) })], Box::new(E::List(vec![E::v("X"), E::v("Y")]))),
+                };
+                out.push(Defect { class: format!("assign-cycle/{:?}/edge-next-to-an-inner-rebinding-by-{}", kind, inner), text: mk(true).text(), twin: mk(false).text(), sigil, must_name: vec!["X".into(), "Y".into()] });
+            }
+        }
         for kind in [AssignKind::Plain, AssignKind::Inline, AssignKind::Lambda] {
             let nb = if thorough { 3 } else { 2 };
             // every dependency digraph over nb bindings: binding i depends on subset mask_i of the bound names
